@@ -121,7 +121,7 @@ func (a *application) start(mode gen.ApplicationMode, options gen.ApplicationOpt
 		// a stop request arrived while the members were being started.
 		// it has reached only the ones that were running by then
 		for _, pid := range a.members() {
-			a.node.SendExit(pid, gen.TerminateReasonShutdown)
+			a.stopMember(pid)
 		}
 	}
 
@@ -189,7 +189,7 @@ func (a *application) stop(force bool, timeout time.Duration) error {
 		if force {
 			a.node.Kill(pid)
 		} else {
-			a.node.SendExit(pid, gen.TerminateReasonShutdown)
+			a.stopMember(pid)
 		}
 	}
 
@@ -199,6 +199,17 @@ func (a *application) stop(force bool, timeout time.Duration) error {
 	case <-time.After(timeout):
 		return gen.ErrApplicationStopping
 	}
+}
+
+// stopMember asks a group member to terminate. An actor traps any exit signal but
+// the one of its parent, so the signal is sent on behalf of the member's parent: for an
+// application started by a remote node that is the core of that node, not ours
+func (a *application) stopMember(pid gen.PID) {
+	from := a.node.corePID
+	if v, found := a.node.processes.Load(pid); found {
+		from = v.(*process).parent
+	}
+	a.node.RouteSendExit(from, pid, gen.TerminateReasonShutdown)
 }
 
 // members returns the pids of the running group members
@@ -237,7 +248,7 @@ func (a *application) terminate(pid gen.PID, reason error) {
 		a.node.Log().Info("application %s (%s) will be stopped due to termination of %s with reason: %s", a.spec.Name, a.mode, pid, reason)
 		a.reason = reason
 		a.group.Range(func(pid gen.PID, _ bool) bool {
-			a.node.SendExit(pid, gen.TerminateReasonShutdown)
+			a.stopMember(pid)
 			return true
 		})
 	case gen.ApplicationModeTransient:
@@ -254,7 +265,7 @@ func (a *application) terminate(pid gen.PID, reason error) {
 		}
 		a.reason = reason
 		a.group.Range(func(pid gen.PID, _ bool) bool {
-			a.node.SendExit(pid, gen.TerminateReasonShutdown)
+			a.stopMember(pid)
 			return true
 		})
 	default:
